@@ -1,6 +1,7 @@
 From Coq Require Import ZArith List String Bool.
 Import ListNotations.
-From TD Require Import Lib.Sexp Spec.PySlice Spec.C16_ObjArray Model.C16_NonTensor.
+From TD Require Import Lib.Sexp Spec.PySlice Spec.C16_ObjArray Model.C16_NonTensor Model.C16_ShapeOps.
+From TD Require Model.C02_ShapeOps.
 Open Scope string_scope.
 
 Fixpoint dec_nt_f (fuel : nat) (s : sexp) : option nt :=
@@ -45,6 +46,44 @@ Fixpoint enc_tree (t : tree) : sexp :=
 
 Definition enc_got (g : got) : sexp :=
   match g with GOne p => SL [SA "one"; SZ p] | GList t => SL [SA "list"; enc_tree t] end.
+
+(* the shape operations as the user spells them (C02's sop) *)
+Definition dec_sop (s : sexp) : option C02_ShapeOps.sop :=
+  match s with
+  | SL [SA "permute"; d] => option_map C02_ShapeOps.OPermute (dec_list dec_Z d)
+  | SL [SA "transpose"; SZ a; SZ b] => Some (C02_ShapeOps.OTranspose a b)
+  | SA "squeeze-all" => Some (C02_ShapeOps.OSqueeze None)
+  | SL [SA "squeeze"; SZ d] => Some (C02_ShapeOps.OSqueeze (Some d))
+  | SL [SA "unsqueeze"; SZ d] => Some (C02_ShapeOps.OUnsqueeze d)
+  | SL [SA "expand"; sh] => option_map C02_ShapeOps.OExpand (dec_list dec_Z sh)
+  | SL [SA "view"; sh] => option_map C02_ShapeOps.OView (dec_list dec_Z sh)
+  | SL [SA "reshape"; sh] => option_map C02_ShapeOps.OReshape (dec_list dec_Z sh)
+  | SL [SA "flatten"; SZ a; SZ b] => Some (C02_ShapeOps.OFlatten a b)
+  | SL [SA "unflatten"; SZ d; sz] => option_map (C02_ShapeOps.OUnflatten d) (dec_list dec_Z sz)
+  | SL [SA "repeat"; r] => option_map C02_ShapeOps.ORepeat (dec_list dec_Z r)
+  | SL [SA "repint"; SZ r; SZ d] => Some (C02_ShapeOps.ORepInt r d)
+  | _ => None
+  end.
+
+Definition enc_sres (r : sres) : sexp :=
+  match r with
+  | SOk y => SL [SA "ok"; enc_nt y]
+  | SLost bs => SL [SA "lost"; enc_list enc_nat bs]
+  | SRaised => SA "raised"
+  | SReorg => SA "reorganised"
+  | SOut => SA "out-of-model"
+  end.
+
+Fixpoint dec_tree_f (fuel : nat) (s : sexp) : option tree :=
+  match fuel with
+  | O => None
+  | S f =>
+      match s with
+      | SZ p => Some (Leaf p)
+      | SL l => option_map Node (dec_list_aux (dec_tree_f f) l)
+      | _ => None
+      end
+  end.
 
 Definition denote_all (x : nt) : option (list (option payload)) :=
   option_map (fun s => map (denote x) (all_indices s)) (shape x).
@@ -110,6 +149,10 @@ Definition dispatch (cmd : string) (args : list sexp) : option sexp :=
   | "expand", [x; sh] =>
       match dec_nt x, dec_list dec_nat sh with
       | Some x, Some sh => Some (enc_res enc_nt (expand_shared_to x sh)) | _, _ => None end
+  | "shape-op", [o; x] =>
+      match dec_sop o, dec_nt x with
+      | Some o, Some x => Some (enc_sres (shape_op o x)) | _, _ => None end
+  | "from-list", [t] => option_map (fun t => enc_res enc_nt (from_list t)) (dec_tree_f 16 t)
   | "cat-entries", [l; dim] =>
       match dec_list dec_nt l, dec_nat dim with
       | Some l, Some dim => Some (enc_res enc_nt (cat_entries l dim)) | _, _ => None end
